@@ -112,11 +112,14 @@ def classify(ctx: HandlerContext) -> Classification:
     if not sql_parts:
         return Classification("ask", description="sqlite3 (interactive)")
 
-    # Combine SQL parts (multiple arguments are separate statements)
-    sql = " ".join(sql_parts)
-
-    # Analyze SQL
-    readonly = is_readonly_sql(sql, extra_write=_SQLITE_WRITE)
+    # Multiple arguments are run as separate statements: each must be read-only
+    results = [is_readonly_sql(part, extra_write=_SQLITE_WRITE) for part in sql_parts]
+    if all(r is True for r in results):
+        readonly = True
+    elif any(r is False for r in results):
+        readonly = False
+    else:
+        readonly = None
     if readonly is True:
         return Classification("allow", description="sqlite3 (read-only query)")
     if readonly is False:
